@@ -30,7 +30,8 @@ PROPS["C14"] = {
                   "targets that agree on the three own fields give the same tuple (other sources ignored) and the loader never touches other fields; "
                   "own offset/run id are removed from every db but the reported one; none => (\"\", -1, 0); missing run id => (\"?\", off, -1) and all "
                   "dbs cleared; version below FeatureCompatibleVersion (or no version field) => error, target untouched; a sender group, and a whole "
-                  "sender session interleaved with foreign traffic, is read back as (runid, last offset, last db); ParseKeyspace(INFO keyspace) = the "
+                  "sender session interleaved with foreign traffic, is read back as (runid, last offset, last db); an interrupted clearing (any subset of the stale dbs cleared, in any order) leaves the newest checkpoint THE newest, so a restart returns the same "
+                  "tuple (interrupted_clear_keeps_newest / _reload; kernel-checked counter-example when the newest checkpoint has no run id); ParseKeyspace(INFO keyspace) = the "
                   "non-empty dbs (decimal render/parse round trip proved). Counter-examples (kernel `decide`) for the pinned HasPrefix/Contains matching (D16) "
                   "and for equal offsets in two dbs. The model is tied to the Go code by differential runs of the real functions.",
     "level_note": "Trusted: Lean kernel; factgen extraction of key/field names, Sprintf formats, hset/hdel field lists and FcvCheckpoint; the hand-written "
